@@ -127,7 +127,7 @@ public:
     promise remove(ident id) {
         std::lock_guard _(_mx);
         if (_scheduled.empty()) return {};
-        while (_scheduled[0]._ident == id) {
+        while (!_scheduled.empty() && _scheduled[0]._ident == id) {
             auto p = std::move(_scheduled[0]._p);
             pop_item();
             if (p) return p;
